@@ -863,6 +863,25 @@ def rel_on_edge(term, k):
     return (term.get("lhs") or {}, rel, term.get("rhs") or {})
 
 
+def edge_relations(f, bid, k):
+    """[(lhs, rel, rhs, term)]: every comparison known on successor edge k of block bid -- its own (rel_on_edge), and for the block
+    that carries the `if` of a short-circuit condition also its partners': on the false edge of `if (a == x || b == y)` both disjuncts
+    are false (the `||` blocks jump to the if-block when their operand is true), on the true edge of `if (a && b)` both conjuncts hold"""
+    b = f.blocks[bid]
+    out = []
+    r = rel_on_edge(b.term, k)
+    if r is not None:
+        out.append(r + (b.term,))
+    kind, slot = ("lor", 0) if k == 1 else ("land", 1)
+    for p in f.blocks.values():
+        t = p.term
+        if t and t.get("k") == kind and len(p.succs) == 2 and p.succs[slot] == bid:
+            r2 = rel_on_edge(t, k)
+            if r2 is not None:
+                out.append(r2 + (t,))
+    return out
+
+
 def edge_establishes(term, k, var, rels_when_left, rhs_pred=None):
     """edge k establishes  var <rel> X  (rel in rels_when_left, X satisfying rhs_pred), written either way round"""
     r = rel_on_edge(term, k)
@@ -1410,7 +1429,11 @@ def unchecked_advances(f, is_advance, is_remaining, is_eol):
     / min(A, ..) with nothing consumed in between."""
     d = cfg.dominators(f)
     adv = [e for e in f.events("call") if is_advance(e)]
-    avail = {x["var"]: x for x in f.events("decl") if x.get("var") and is_remaining_init(x, is_remaining)}
+    # (in a flattened function the locals of an expanded helper carry a suffix that expression text does not: compare base names)
+    avail = {}
+    for x in f.events("decl"):
+        if x.get("var") and is_remaining_init(x, is_remaining):
+            avail.setdefault(x["var"].split("@")[0], []).append(x)
     out = []
 
     def used(c):
@@ -1438,7 +1461,7 @@ def unchecked_advances(f, is_advance, is_remaining, is_eol):
             if r is not None:
                 lhs, rel, rhs = r
                 for a_, rel_, o_ in ((lhs, rel, rhs), (rhs, _SWAP[rel], lhs)):
-                    is_av = a_.get("v") in avail or any(is_remaining_ref(x) for x in [a_])
+                    is_av = (a_.get("v") or "").split("@")[0] in avail or any(is_remaining_ref(x) for x in [a_])
                     if is_av and rel_ in (">=", ">", "=="):
                         terms = _sum_terms(o_.get("t"))
                         if terms is not None:
@@ -1452,16 +1475,17 @@ def unchecked_advances(f, is_advance, is_remaining, is_eol):
         ok, why = False, "no availability test covers it"
         # the amount is what is there
         m = re.match(r"^(?:std::min(?:<[^>]*>)?\()?(\w+)", amt)
-        for av, dv in avail.items():
-            if (amt == av or re.match(r"^std::min(<[^>]*>)?\((%s,.*|.*,%s)\)$" % (re.escape(av), re.escape(av)), amt)) and cfg.ev_dominates(d, dv, c):
-                between = [x for x in adv if x is not c and cfg.ev_dominates(d, dv, x) and any(y is c for y in cfg.events_after(f, x))]
-                if not between:
-                    ok, why = True, "skips what remaining() reported (%s)" % av
+        for av, dvs in avail.items():
+            for dv in dvs:
+                if (amt == av or re.match(r"^std::min(<[^>]*>)?\((%s,.*|.*,%s)\)$" % (re.escape(av), re.escape(av)), amt)) and cfg.ev_dominates(d, dv, c):
+                    between = [x for x in adv if x is not c and cfg.ev_dominates(d, dv, x) and any(y is c for y in cfg.events_after(f, x))]
+                    if not between:
+                        ok, why = True, "skips what remaining() reported (%s)" % av
         # a local that is itself min(A, ..)
         if not ok:
             for x in f.events("decl"):
                 it = re.sub(r"\s+", "", (x.get("init") or {}).get("t") or "")
-                if x.get("var") == amt and any(re.match(r"^std::min(<[^>]*>)?\((%s,.*|.*,%s)\)$" % (re.escape(av), re.escape(av)), it) for av in avail) and cfg.ev_dominates(d, x, c):
+                if (x.get("var") or "").split("@")[0] == amt and any(re.match(r"^std::min(<[^>]*>)?\((%s,.*|.*,%s)\)$" % (re.escape(av), re.escape(av)), it) for av in avail) and cfg.ev_dominates(d, x, c):
                     ok, why = True, "skips min(remaining, ..) (%s)" % amt
         if not ok:
             for bid, k, terms, _av in facts_:
